@@ -155,6 +155,9 @@ class ModelBackend(object):
         self.clevel[id(f)] = self.tlevel.get(inst.token, 0)
         return f
 
+    def handed_out(self, fut):
+        pass
+
     def dd(self, inst, key):
         f = MFut("const")
         f.set(("dd", key))
@@ -373,6 +376,12 @@ class ModelBackend(object):
         for f in batch:
             if not f.done:
                 self._resolve_item(f)
+        for k2 in fl.get("cancelled", []):
+            b2 = self.batches[k2]
+            self.batches[k2] = []
+            for f in b2:
+                if not f.done:
+                    self._resolve_item(f)
 
     def sync(self, inst, node, how):
         fut = prog.build_leaf(self, inst, node)
